@@ -47,7 +47,7 @@ ASSUMPTIONS = [
     "a raw source may be given the path of a named pipe (a file produced while it is read): same chunks as a regular file",
     "a second StdinAudioSource made after the first one was dropped reads on from where the standard input is",
 ]
-BOUNDS = {"quick": dict(n=250, steps=30), "thorough": dict(n=5000, steps=50)}
+BOUNDS = {"quick": dict(n=250, steps=30), "thorough": dict(n=2000, steps=50)}
 KINDS = ("buffer", "raw", "wav", "stdin")
 MORE_KINDS = ("pipe", "fifo")
 _ctr = [0]
@@ -460,7 +460,7 @@ def jobs(tier, seed):
                     "n": b["n"], "steps": b["steps"]})
     for i in range(8 if tier == "thorough" else 4):
         out.append({"name": f"sm-{MORE_KINDS[i % 2]}-{i}", "kinds": [MORE_KINDS[i % 2]], "seed": seed * 1000 + 100 + i,
-                    "n": 300 if tier == "thorough" else 40, "steps": 20})
+                    "n": 150 if tier == "thorough" else 40, "steps": 20})
     return out
 
 
